@@ -94,23 +94,55 @@ func runHistory(bi int, steps []step, le *logrus.Entry, emit func(map[string]any
 	H.tpt.ConnectToInproc(ctx, L.tpt)
 	sides := map[string]*side{"L": L, "H": H}
 	emit(map[string]any{"e": "reset", "b": bi})
-	settle := func() {
-		// quiescence: value counts stable for 120 ms
-		last, stable := -1, 0
-		for i := 0; i < 400 && stable < 6; i++ {
-			time.Sleep(20 * time.Millisecond)
-			n := 0
+	// state of SolicitExchange.tla as far as the driver needs it to know when waiting is over
+	local := map[string]map[string]bool{"L": {}, "H": {}}
+	up, removed := false, false
+	count := func() int {
+		n := 0
+		for _, s := range sides {
+			s.mu.Lock()
+			for _, v := range s.vals {
+				n += len(v)
+			}
+			s.mu.Unlock()
+		}
+		return n
+	}
+	// what the design demands "eventually" in histories without removals: every common solicitation has its stream on both ends
+	expected := func() bool {
+		if !up || removed {
+			return true
+		}
+		for x := range local["L"] {
+			if !local["H"][x] {
+				continue
+			}
 			for _, s := range sides {
 				s.mu.Lock()
-				for _, v := range s.vals {
-					n += len(v)
-				}
+				n := len(s.vals[x])
 				s.mu.Unlock()
+				if n == 0 {
+					return false
+				}
 			}
-			if n == last {
-				stable++
-			} else {
-				stable, last = 0, n
+		}
+		return true
+	}
+	settle := func() {
+		// quiescence: value counts stable for 150 ms, and (liveness bound 15 s) the expected matches have happened
+		dl := time.Now().Add(15 * time.Second)
+		for {
+			last, stable := count(), 0
+			for stable < 6 {
+				time.Sleep(25 * time.Millisecond)
+				if n := count(); n == last {
+					stable++
+				} else {
+					stable, last = 0, n
+				}
+			}
+			if expected() || time.Now().After(dl) {
+				return
 			}
 		}
 	}
@@ -165,12 +197,25 @@ func runHistory(bi int, steps []step, le *logrus.Entry, emit func(map[string]any
 				}
 			}()
 			// the link must exist before the next step (the model's LinkUp is atomic)
-			for i := 0; i < 500; i++ {
-				if len(L.tpc.GetPeerLinks(H.tb.PeerID)) > 0 && len(H.tpc.GetPeerLinks(L.tb.PeerID)) > 0 {
-					break
+			linked := false
+			for i := 0; i < 4000 && !linked; i++ {
+				linked = len(L.tpc.GetPeerLinks(H.tb.PeerID)) > 0 && len(H.tpc.GetPeerLinks(L.tb.PeerID)) > 0
+				if !linked {
+					time.Sleep(5 * time.Millisecond)
 				}
-				time.Sleep(5 * time.Millisecond)
 			}
+			if !linked {
+				vio.Fatal("the in-process link between the two nodes did not come up within 20 s")
+			}
+		}
+		switch st.A {
+		case "add":
+			local[st.S][st.X] = true
+		case "remove":
+			delete(local[st.S], st.X)
+			removed = true
+		case "link":
+			up = true
 		}
 		emit(map[string]any{"e": "ev", "a": st.A, "s": st.S, "x": st.X, "w": st.W})
 		if st.W {
